@@ -8,25 +8,25 @@ CHECKS = {
    text="All byte strings of length <= 3 (quick) / 4 (thorough) into all 37 byte-level entry points; every structured input of the C07-C18 spaces with every follow-up operation (re-encode, clone, ==, Debug, drop, all tbs/verify/MAC/decrypt helpers); ladders to 64 KiB / 1 MiB over 84 words of the header<->counter-signature recursion graph, nested recipients, array/map/tag nesting and 16 width families, on an 8 MiB and a 2 MiB stack, for the crate built with and without `std`: no panic, no abnormal exit, heap and time linear in the input.",
    note="Trusted: child exit status / signal as the crash observation; the counting global allocator of the engine; default stack sizes of the sandbox (ulimit -s 8 MiB; std::thread 2 MiB). Bounds: string length for the exhaustive sweep, 64 KiB / 1 MiB for ladders, the family list."),
  "C02": dict(section="4.2", technique="exhaustive enumeration of header contents x encodings within a deviation bound x byte-string wrappers x carrier positions; retention, re-encoding and crypto-structure slots checked on the real crate",
-   text="Every encoding within 1 (quick) / 2 (thorough) deviations of 18 header contents, plus the three empty forms, carried definite / wide-head / chunked at 17 protected carrier positions: original_data and parsed view equal the reference at every nesting level, the re-encoding carries exactly the wire bytes, and every to-be-signed / MAC / AEAD structure obtainable from the decoded value carries them in its protected slot(s)."),
+   text="Every encoding within 1 (quick) / 2 (thorough) deviations of 20 header contents, plus the three empty forms, carried definite / wide-head / chunked at 21 protected carrier positions and on its own through ProtectedHeader::from_cbor_bstr: original_data and parsed view equal the reference at every nesting level, the re-encoding carries exactly the wire bytes, and every to-be-signed / MAC / AEAD structure obtainable from the decoded value carries them in its protected slot(s)."),
  "C03": dict(section="4.3", technique="exhaustive product of contexts x protected-header forms x signer forms x bstr length classes x payload placement over every API route; byte equality with an independent deterministic encoder",
-   text="All tuples (3 contexts x 8 body forms x {absent, 8 signer forms} x AAD/payload length classes 0..65536 x embedded/detached/absent x 1..3 signers at every index) through sig_structure_data, tbs_data, tbs_detached_data and the closure argument of every create/add/try/verify variant; documented panics iff documented; injectivity table."),
+   text="All tuples (3 contexts x 18 body forms x {absent, 18 signer forms} x AAD/payload length classes 0..65536 x embedded/detached/absent x 1..3 signers at every index) through sig_structure_data, tbs_data, tbs_detached_data and the closure argument of every create/add/try/verify variant; documented panics iff documented; injectivity table."),
  "C04": dict(section="4.4", technique="exhaustive product {MAC, MAC0} x protected forms x bstr length classes x payload presence over every API route; byte equality with an independent deterministic encoder",
    text="All tuples through mac_structure_data, create_tag, try_create_tag and verify_tag on built and decoded messages; MAC/MAC0 separation; no-payload refusal without calling the closure."),
  "C05": dict(section="4.5", technique="exhaustive product of five contexts x protected forms x AAD length classes x ciphertext presence over every carrier and API route; byte equality with an independent deterministic encoder",
    text="All tuples through enc_structure_data, create_ciphertext / try_create_ciphertext / decrypt of Encrypt, Encrypt0 and recipients (top-level and nested) with each recipient context; non-recipient context and missing ciphertext refused; no two contexts collide; plaintext/ciphertext passed through."),
  "C06": dict(section="4.6", technique="explicit-state breadth-first search over builder call sequences on the real builders with canonical-state de-duplication; every reached state is serialised, parsed back and verified with recording closures",
-   text="All call sequences up to depth 4 (quick) / 6 (thorough; 5 for COSE_Sign) of the seven message builders incl. every create / try / detached helper; at every state every non-stale created slot is verified after an untagged and a tagged wire round trip: the verifier closure gets exactly the stored value and exactly the creator's bytes, results pass through, every perturbation of AAD / payload / body protected / signer protected changes the bytes; failing creators yield their error and no message."),
+   text="All call sequences up to depth 5 (quick) / 8 (thorough); 4 / 5 for COSE_Sign, of the seven message builders, plus pumped histories (an operation repeated 9..129 times) incl. every create / try / detached helper; at every state every non-stale created slot is verified after an untagged and a tagged wire round trip: the verifier closure gets exactly the stored value and exactly the creator's bytes, results pass through, every perturbation of AAD / payload / body protected / signer protected changes the bytes; failing creators yield their error and no message."),
  "C07": dict(section="4.7", technique="exhaustive bounded enumeration of structured inputs (explicit-state tree search); one-step fixed-point oracle on the real encoder/decoder",
    text="Every input of the structured spaces of C08/C09/C10/C12/C14/C15/C18 plus dedicated non-canonical families (all encodings within 2 deviations incl. bignum and indefinite forms) is decoded; for each accepted one: re-encode, re-decode, compare value (incl. retained protected bytes) and second encoding, tagged forms too."),
  "C08": dict(section="4.8", technique="exhaustive enumeration of bounded header maps (explicit-state tree search) with differential check against an independent reference decoder",
-   text="Every header map with <= 3 (quick) / 4 (thorough) entries over a ~150-pair alphabet (each rule satisfied and violated alone), in every order, at up to 33 carrier positions, wide maps of 17..300 entries, all byte strings of <= 2/3 bytes, plus all encodings within 1-2 deviations of small maps, is decoded by the real crate and compared (accept/reject and every field) with an independent reference."),
+   text="Every header map with <= 3 (quick) / 4 (thorough) entries over a ~150-pair alphabet (each rule satisfied and violated alone), in every order, at up to 33 carrier positions, every registered header label and its neighbours with every value shape, wide maps of 9..300 entries, all byte strings of <= 2/3 bytes, plus all encodings within 1-2 deviations of small maps, is decoded by the real crate and compared (accept/reject and every field) with an independent reference."),
  "C09": dict(section="4.9", technique="exhaustive enumeration of arrays over a slot alphabet (explicit-state product search), each decoded as all eight structure types, compared with an independent reference",
-   text="All arrays of arity 3,4,5 over a 39-value slot alphabet (13 values for arity 5 in quick), lists of 17/40 nested elements with the fault first / middle / last, all byte strings of <= 2/3 bytes, and arity 0,1,2,6,7 over a reduced one, every non-array kind, decoded as each of the 8 structure types untagged and tagged; accept/reject and every field compared with the reference CDDL rules; encodings within 1-2 deviations."),
+   text="All arrays of arity 3,4,5 over a 49-value slot alphabet (13 values for arity 5 in quick), lists of 17/40 nested elements with the fault first / middle / last, all byte strings of <= 2/3 bytes, and arity 0,1,2,6,7 over a reduced one, every non-array kind, decoded as each of the 8 structure types untagged and tagged; accept/reject and every field compared with the reference CDDL rules; encodings within 1-2 deviations."),
  "C10": dict(section="4.10", technique="exhaustive enumeration of bounded key maps and key sets (explicit-state tree search) against an independent reference decoder",
-   text="Every COSE_Key map with <= 3/4 entries over a ~70-pair alphabet in every order (kty at every position, absent, reserved, duplicated), as a key and inside a key set; all key sets of 0..3 valid/invalid elements; encodings within 1-2 deviations."),
+   text="Every COSE_Key map with <= 3/4 entries over a ~70-pair alphabet in every order (kty at every position, absent, reserved, duplicated), as a key and inside a key set; every key type x every registered key-parameter label x every value shape with the label before and after kty; all key sets of 0..3 valid/invalid elements; encodings within 1-2 deviations."),
  "C11": dict(section="4.11", technique="exhaustive enumeration of per-field palette products of in-memory values for every type; real encoder output read by an independent CBOR parser and compared with a reference encoder",
-   text="~18k values (full products of per-field palettes for headers, keys, claims; all 8 message types over protected/unprotected/payload/nested-list palettes; labels and every registered value of every registry label type): to_vec succeeds, output is definite-length with shortest heads, independently parsed output equals the reference encoding (maps modulo order, extras in order, protected slots parsed), decoding the output returns the value, tagged forms too."),
+   text="~23k values (full products of per-field palettes for headers, keys, claims; all 8 message types over protected/unprotected/payload/nested-list palettes; labels and every registered value of every registry label type): to_vec succeeds, output is definite-length with shortest heads, independently parsed output equals the reference encoding (maps modulo order, extras in order, protected slots parsed), decoding the output returns the value, tagged forms too; == tells apart every pair of palette values (within a window of 256 in enumeration order) whose encodings differ."),
  "C12": dict(section="4.12", technique="exhaustive enumeration of duplicate-label placements x label encodings x carriers (decode) and of colliding in-memory values (encode)",
    text="Decode: every label of a boundary-crossing set x every pair of encodings x every pair of positions in maps of size 2..4 x every carrier (33 header positions, key, key set, claims), every pair of values incl. the field defaults, and maps of 9..65 entries with the repeat at every pair of positions: must be rejected, with the duplicate-key error when it is the only fault. Encode: every in-memory header / key / claims set (alone and embedded in 14 carriers) whose extras repeat a label or name a populated typed field in any of its shape variants must fail to encode or emit pairwise distinct keys."),
  "C13": dict(section="4.13", technique="exhaustive prefix/suffix enumeration over every accepted input of the structured spaces; layer-agreement differential on every input",
@@ -34,16 +34,16 @@ CHECKS = {
  "C14": dict(section="4.14", technique="exhaustive product 6 types x 16 tags x head widths x bodies x tagging depth through both entry points",
    text="Exact iff of the statement for every combination, plus bytewise to_tagged_vec == tag head || to_vec and tagged round trip."),
  "C15": dict(section="4.15", technique="exhaustive enumeration of an integer boundary lattice and window x interpreting positions x head widths against exact-arithmetic reference",
-   text="~1.3k lattice integers in [-2^64, 2^64-1] plus a window (+-3000 quick / +-70000 thorough) at 42 positions and the 33 header carrier positions under every head width: exact value or out-of-range error; extras preserved; re-encoding reads back as the same integer with a minimal head."),
+   text="~1.3k lattice integers in [-2^64, 2^64-1] plus a window (+-3000 quick / +-70000 thorough) at 45 positions and the 33 header carrier positions under every head width: exact value or out-of-range error; extras preserved; re-encoding reads back as the same integer with a minimal head."),
  "C16": dict(section="4.16", technique="exhaustive enumeration of all pairs and triples over a boundary-crossing label set for Label and all 12 registry label instantiations",
    text="Order laws (Eq-consistency, antisymmetry, partial_cmp, transitivity on all triples) and agreement of cmp / cmp_canonical with bytewise / length-first comparison of independently produced deterministic encodings."),
  "C17": dict(section="4.17", technique="exhaustive enumeration of [-70000,70000] + 64-bit extremes over all 16 registry enums and all label-typed decode positions against a registry snapshot",
    text="from_i64/to_i64/Debug name/is_private compared with the refiana snapshot for every integer of the window in every registry, every snapshot row must be hit; classification through decoding at every label-typed position."),
  "C18": dict(section="4.18", technique="exhaustive enumeration of bounded claims maps and KDF-context arrays (explicit-state tree/product search) against an independent reference, with re-encode/decode of every accepted value",
-   text="All claims maps with <= 3/4 entries over a ~105-pair alphabet; all PartyInfo / SuppPubInfo arrays of arity 0..4-5 over slot alphabets; all KDF contexts over (alg x party x party x supp x trailing) alphabets; accept/reject, fields (private KDF fields via builder-constructed expected value and via re-encoding) and fixed point."),
+   text="All claims maps with <= 3/4 entries over a ~110-pair alphabet; every registered claim name and its neighbours with every value shape; all PartyInfo / SuppPubInfo arrays of arity 0..4-5 over slot alphabets; all KDF contexts over (alg x party x party x supp x trailing) alphabets; accept/reject, fields (private KDF fields via builder-constructed expected value and via re-encoding) and fixed point."),
  "C19": dict(section="4.19", technique="explicit-state breadth-first search over call sequences of all 14 real builders against a field-map model, conformance checked on every transition",
-   text="All call sequences up to depth 4 (quick) / 5 (thorough) for the large alphabets (header 27 ops, key 10 initial states x 22 ops, claims 33 ops, 8 message builders) and 5 / 7 for the small ones: build() after every transition equals the documented effect (setter replaces, adder appends, later wins, IV/Partial-IV exclusion, constructors), reserved labels are refused with a panic and every other label appended."),
- "C20": dict(section="4.20", technique="exhaustive enumeration of keys: typed-field subsets x every ordered selection of <= 3/4 extra labels from a 14-label palette x both orderings, in-memory and decoded",
+   text="All call sequences up to depth 4 (quick) / 6 (thorough) for the header (27 ops) and key (10 initial states x 22 ops) builders, 4 / 5 for claims (33+ ops), 5 / 8 for the message builders (COSE_Sign 4 / 6) and the small ones, plus pumped histories (an operation repeated 9..129 times): build() after every transition equals the documented effect (setter replaces, adder appends, later wins, IV/Partial-IV exclusion, constructors), reserved labels are refused with a panic and every other label appended."),
+ "C20": dict(section="4.20", technique="exhaustive enumeration of keys: typed-field subsets x every ordered selection of <= 3/5 extra labels from a 16-label palette x both orderings, in-memory and decoded; wide keys (20..100 extras sharing encoded lengths) and labels straddling every head-width threshold",
    text="After canonicalize the emitted map keys (read by the independent parser) are strictly ascending under the chosen ordering, the pair set is unchanged, a second canonicalize is a no-op and decode/re-encode reproduces the bytes."),
 }
 for c in CHECKS.values():
